@@ -1139,8 +1139,8 @@ class Engine:
     def havoc_call(self, st, fr, dest, callee, args):
         if dest is None or dest[0] != "local":
             return None
-        if not re.match(r"^(<?(core|std|alloc)::|<(str|\[u8\]|char|u8|u32|u64|usize|&)|(core::)?(str|slice|char)::)", callee) and "::<impl " not in callee:
-            return None
+        if self.find_fn(callee) is not None:
+            return None       # a function of the crate that a claim chose not to inline: needs its own stub
         ty = (fr.fn.local_ty.get(dest[1]) or "").strip()
         for a in args:
             if a[0] in ("copy", "move") and a[1][0] == "local":
